@@ -67,6 +67,23 @@ def snake_upper(cls):
 
 
 
+def _user_classes():
+    from basyx.aas.adapter.json import AASToJsonEncoder, AASFromJsonDecoder, StrictAASFromJsonDecoder
+
+    class UserStrippedEncoder(AASToJsonEncoder):
+        stripped = True
+
+    class UserStrippedDecoder(AASFromJsonDecoder):
+        stripped = True
+
+    class UserStrictStrippedDecoder(StrictAASFromJsonDecoder):
+        stripped = True
+    return UserStrippedEncoder, UserStrippedDecoder, UserStrictStrippedDecoder
+
+
+USER_ENCODER, USER_DECODER_FAILSAFE, USER_DECODER_STRICT = _user_classes()
+
+
 def canon_json(d):
     """JSON value with the arrays that render unordered collections sorted (their order may differ between two renderings
     of the same store)"""
@@ -137,9 +154,18 @@ def _run(chk):
                 d = aasgen.diff(want, stripped) or "?"
                 chk.fail(sig("writer", d), f"stripped JSON of a {cls} is not the full JSON minus the detachable members: {d}",
                          {"class": cls, "full_json": full, "stripped_json": stripped})
+            # the documented way to get stripped behaviour is the class attribute `stripped`: a user-defined subclass that only
+            # declares it (as the HTTP adapter's result encoder does) must behave like the shipped stripped classes
+            via_attr = json.loads(json.dumps(obj, cls=USER_ENCODER))
+            if via_attr != want:
+                d = aasgen.diff(want, via_attr) or "?"
+                chk.fail(sig("writer-user-subclass", d), f"a subclass of AASToJsonEncoder declaring only `stripped = True` renders a "
+                         f"{cls} differently from the full JSON minus the detachable members: {d}",
+                         {"class": cls, "full_json": full, "rendered": via_attr})
             for fs_ in (False, True):
-                dec = StrippedAASFromJsonDecoder if fs_ else StrictStrippedAASFromJsonDecoder
-                for name, doc in (("full", full), ("stripped", stripped)):
+                for dec in ((StrippedAASFromJsonDecoder if fs_ else StrictStrippedAASFromJsonDecoder),
+                            (USER_DECODER_FAILSAFE if fs_ else USER_DECODER_STRICT)):
+                  for name, doc in (("full", full), ("stripped", stripped)):
                     o2 = json.loads(json.dumps(doc), cls=dec)
                     d = aasgen.diff(strip_canon(c03.strip_type(aasgen.canon(obj))), c03.strip_type(aasgen.canon(o2)))
                     if d:
